@@ -1,13 +1,910 @@
-//! C02: generators and executor (see DESIGN.md section 4, C02).
+//! C02 — nothing secret is stored in the clear (DESIGN.md section 4, C02).
+//!
+//! case = {"kind":"c02","id",
+//!         "method": "raw" | "kdf:argon2i:13:int" | "kdf:argon2i:13:mod" | "none", "pass": string|null,
+//!         "journal": "wal" | "delete", "profile": default profile name, "ops": [op…]}
+//! op   = insert/replace {profile,k,c,n,v(hex),t:[[plain,name,value]…]|null} | remove {profile,k,c,n}
+//!      | remove_all {profile,k,c|null,f|null} | fetch {profile,k,c,n} | count {profile,k,c|null,f|null} | scan {…}
+//!      | insert_key {profile,n,alg,seed(hex),meta|null,t, jwk,sec,thumbs (observables of the key, for the model)}
+//!      | create_profile {name} | remove_profile {name} | set_default {name}
+//!      | rekey {method,pass} | copy {method,pass} | checkpoint | reopen
+//!
+//! Every secret field (category, name, value, tag name, encrypted tag value, key name, key metadata, pass keys)
+//! carries a fresh random marker of >= 12 bytes drawn from the case seed.  After EVERY step and after close the
+//! executor reads `*.db`, `*.db-wal`, `*.db-shm`, `*.db-journal` of the store (and of the copy target) with
+//! `std::fs::read` and searches them for every marker, the pass keys, the base58 raw keys, the raw key bytes, the
+//! derived store keys, every profile sub-key (obtained by unwrapping `profiles.profile_key` here) and the stored
+//! private keys.  Plaintext-tag values and profile names MUST be found (the scanner is not vacuous).  Rows are read
+//! out of band: no stored column may equal a secret; value nonces never repeat; a rewritten value never keeps its bytes.
+//!
+//! out  = {"steps":[{"res", "main": DUMP, "copy": DUMP|null}…], "closed": {"main","copy"}}
+//! DUMP = {"key": method part of config.key, "profiles":[[name, len(profile_key)]…], "items":[[profile, kind, len cat, len name, len value]…],
+//!         "tags":[[profile, len name, len value, plaintext, value-is-a-known-plaintext]…], "clear_secret": n}  (all sorted)
+use crate::canon::{err_name, filter_from_json, kind_of, tags_from_json, Tag};
+use crate::rawsql::{RawDb, Val};
 use crate::rng::Rng;
+use crate::store_case::scratch_dir;
+use aries_askar::kms::{KeyAlg, LocalKey};
+use aries_askar::Store;
+use askar_crypto::alg::chacha20::{Chacha20Key, C20P};
+use askar_crypto::buffer::SecretBytes;
+use askar_crypto::encrypt::KeyAeadInPlace;
+use askar_crypto::kdf::argon2::{Argon2, PARAMS_INTERACTIVE, PARAMS_MODERATE};
+use askar_crypto::kdf::KeyDerivation;
+use askar_crypto::repr::KeySecretBytes;
+use askar_storage::any::AnyBackend;
+use askar_storage::backend::{Backend, BackendSession, ManageBackend};
+use askar_storage::entry::EntryOperation;
+use askar_storage::future::block_on;
+use askar_storage::{Error, PassKey, StoreKeyMethod};
 use serde_json::{json, Value};
+use std::collections::{BTreeMap, BTreeSet, HashMap, HashSet};
+use std::str::FromStr;
 
-/// generated cases for this property (each a JSON object with "kind": "c02…")
-pub fn gen(_r: &mut Rng, _thorough: bool, _count: Option<usize>) -> Vec<Value> {
-    vec![]
+// =============================================================================================
+// generator
+
+const ALNUM: &[u8] = b"ABCDEFGHJKLMNPQRSTUVWXYZabcdefghijkmnopqrstuvwxyz0123456789";
+const KEY_ALGS: &[&str] = &["ed25519", "x25519", "p256", "k256", "bls12381g1g2", "c20p", "a256gcm"];
+
+/// a fresh marker: class prefix + 20 random alphanumerics (~117 bits), sometimes with a non-ASCII tail
+fn marker(r: &mut Rng, prefix: &str) -> String {
+    let mut s = String::from(prefix);
+    for _ in 0..20 { s.push(ALNUM[r.below(ALNUM.len())] as char); }
+    if r.chance(1, 5) { s.push_str(*r.pick(&["\u{e9}", "\u{540d}\u{524d}", "\u{1F600}", " x", "'\"\\", "%_"])); }
+    s
+}
+
+fn b58(data: &[u8]) -> String {
+    const A: &[u8] = b"123456789ABCDEFGHJKLMNPQRSTUVWXYZabcdefghijkmnopqrstuvwxyz";
+    let mut digits: Vec<u8> = vec![];
+    for &b in data {
+        let mut carry = b as u32;
+        for d in digits.iter_mut() { carry += (*d as u32) << 8; *d = (carry % 58) as u8; carry /= 58; }
+        while carry > 0 { digits.push((carry % 58) as u8); carry /= 58; }
+    }
+    let mut s: String = data.iter().take_while(|b| **b == 0).map(|_| '1').collect();
+    s.extend(digits.iter().rev().map(|d| A[*d as usize] as char));
+    s
+}
+
+fn b58_decode(s: &str) -> Vec<u8> {
+    const A: &[u8] = b"123456789ABCDEFGHJKLMNPQRSTUVWXYZabcdefghijkmnopqrstuvwxyz";
+    let mut bytes: Vec<u8> = vec![];
+    for c in s.bytes() {
+        let mut carry = match A.iter().position(|a| *a == c) { Some(p) => p as u32, None => return vec![] };
+        for b in bytes.iter_mut() { carry += (*b as u32) * 58; *b = (carry & 0xff) as u8; carry >>= 8; }
+        while carry > 0 { bytes.push((carry & 0xff) as u8); carry >>= 8; }
+    }
+    let mut out: Vec<u8> = s.bytes().take_while(|c| *c == b'1').map(|_| 0u8).collect();
+    out.extend(bytes.iter().rev());
+    out
+}
+
+fn fresh_pass(r: &mut Rng, method: &str) -> Value {
+    if method == "raw" { json!(b58(&r.bytes(32))) }
+    else if method.starts_with("kdf") { json!(marker(r, "pw")) }
+    else { Value::Null }
+}
+
+#[derive(Clone)]
+struct GRec { profile: String, cat: String, name: String, value: Vec<u8>, tags: Vec<Tag> }
+
+struct G { profiles: Vec<String>, default: String, cats: Vec<String>, recs: Vec<GRec>, thorough: bool }
+
+impl G {
+    fn value(&self, r: &mut Rng) -> Vec<u8> {
+        if !self.recs.is_empty() && r.chance(1, 8) { return r.pick(&self.recs).value.clone(); } // equal plaintexts in different records
+        let n = match r.below(16) { 0 => 0, 1 => 1, 2 => 15, 3 => 17, 4 | 5 => 2500 + r.below(if self.thorough { 40000 } else { 7000 }), _ => 12 + r.below(60) };
+        r.bytes(n)
+    }
+    fn tags(&self, r: &mut Rng) -> Value {
+        if r.chance(1, 7) { return Value::Null; }
+        let n = r.below(4);
+        let mut t = vec![];
+        for _ in 0..n {
+            let plain = r.chance(1, 2);
+            let name = if !self.recs.is_empty() && r.chance(1, 4) {
+                // reuse a tag name (searchable encryption: same ciphertext again)
+                let rec = r.pick(&self.recs); if rec.tags.is_empty() { marker(r, "T") } else { r.pick(&rec.tags).name.clone() }
+            } else { marker(r, "T") };
+            let value = match r.below(10) { 0 => String::new(), 1 => "1".to_string(), _ => marker(r, if plain { "PV" } else { "EV" }) };
+            t.push(json!([if plain { 1 } else { 0 }, name, value]));
+        }
+        Value::Array(t)
+    }
+    fn profile(&self, r: &mut Rng) -> String {
+        if r.chance(1, 30) { return marker(r, "Pgone") }
+        r.pick(&self.profiles).clone()
+    }
+    fn filter(&self, r: &mut Rng) -> Value {
+        if self.recs.is_empty() || r.chance(1, 4) { return Value::Null; }
+        let rec = r.pick(&self.recs).clone();
+        if rec.tags.is_empty() { return json!({"exist": [marker(r, "T")]}); }
+        let leaf = |r: &mut Rng| -> Value {
+            let t = r.pick(&rec.tags).clone();
+            let n = if t.plain { format!("~{}", t.name) } else { t.name.clone() };
+            match r.below(7) {
+                0 | 1 => json!({"eq": [n, t.value]}),
+                2 => json!({"neq": [n, marker(r, if t.plain { "PV" } else { "EV" })]}),
+                3 => json!({"in": [n, [t.value, marker(r, if t.plain { "PV" } else { "EV" })]]}),
+                4 => json!({"exist": [n]}),
+                5 if t.plain => json!({"like": [n, format!("{}%", t.value.chars().take(6).collect::<String>())]}),
+                5 => json!({"eq": [n, marker(r, "EV")]}),
+                _ if t.plain => json!({"gte": [n, t.value]}),
+                _ => json!({"eq": [n, t.value]}),
+            }
+        };
+        match r.below(5) {
+            0 => json!({"and": [leaf(r), leaf(r)]}),
+            1 => json!({"or": [leaf(r), leaf(r)]}),
+            2 => json!({"not": leaf(r)}),
+            _ => leaf(r),
+        }
+    }
+}
+
+fn key_observables(alg: &str, seed: &[u8]) -> Option<(LocalKey, String, Vec<u8>, Vec<String>)> {
+    let a = KeyAlg::from_str(alg).ok()?;
+    let k = LocalKey::from_seed(a, seed, None).ok()?;
+    let jwk = String::from_utf8(k.to_jwk_secret().ok()?.to_vec()).ok()?;
+    let sec = k.to_secret_bytes().ok()?.to_vec();
+    let thumbs = k.to_jwk_thumbprints().ok()?;
+    Some((k, jwk, sec, thumbs))
+}
+
+fn gen_case(r: &mut Rng, id: u64, method: &str, journal: &str, thorough: bool) -> Value {
+    let p0 = marker(r, "P");
+    let mut g = G { profiles: vec![p0.clone()], default: p0.clone(), cats: (0..3).map(|_| marker(r, "C")).collect(), recs: vec![], thorough };
+    let pass = fresh_pass(r, method);
+    let mut ops: Vec<Value> = vec![];
+    let n_ops = if thorough { 20 + r.below(50) } else { 14 + r.below(18) };
+    // skeleton guaranteeing a replace, a same-value rewrite, a KMS insert, a re-key and a copy in every history
+    let mut forced: Vec<&str> = vec!["insert", "insert", "replace_same", "insert_key", "rekey", "replace", "copy", "reinsert_same"];
+    let mut cur_method = method.to_string();
+    for i in 0..n_ops {
+        let pick = if i % 2 == 0 && !forced.is_empty() { forced.remove(0) } else {
+            match r.below(100) {
+                0..=27 => "insert", 28..=39 => "replace", 40..=44 => "replace_same", 45..=51 => "remove", 52..=56 => "remove_all",
+                57..=60 => "fetch", 61..=64 => "count", 65..=67 => "scan", 68..=74 => "insert_key", 75..=78 => "create_profile",
+                79..=80 => "remove_profile", 81 => "set_default", 82..=86 => "rekey", 87..=90 => "copy", 91..=94 => "checkpoint",
+                95..=97 => "reopen", _ => "reinsert_same",
+            }
+        };
+        match pick {
+            "insert" => {
+                let profile = g.profile(r);
+                let cat = if r.chance(3, 4) { r.pick(&g.cats).clone() } else { let c = marker(r, "C"); g.cats.push(c.clone()); c };
+                let name = if !g.recs.is_empty() && r.chance(1, 8) { r.pick(&g.recs).name.clone() } else { marker(r, "N") };
+                let value = g.value(r);
+                let tags = g.tags(r);
+                g.recs.push(GRec { profile: profile.clone(), cat: cat.clone(), name: name.clone(), value: value.clone(), tags: tags_from_json(&tags).unwrap_or_default() });
+                ops.push(json!({"op": "insert", "profile": profile, "k": 2, "c": cat, "n": name, "v": hex::encode(&value), "t": tags}));
+            }
+            "replace" | "replace_same" => {
+                if g.recs.is_empty() { continue; }
+                let i = r.below(g.recs.len());
+                let value = if pick == "replace_same" { g.recs[i].value.clone() } else { g.value(r) };
+                let tags = if pick == "replace_same" && r.chance(1, 2) { Value::Array(g.recs[i].tags.iter().map(Tag::to_json).collect()) } else { g.tags(r) };
+                g.recs[i].value = value.clone();
+                g.recs[i].tags = tags_from_json(&tags).unwrap_or_default();
+                let rec = g.recs[i].clone();
+                let name = if r.chance(1, 12) { marker(r, "N") } else { rec.name.clone() };
+                ops.push(json!({"op": "replace", "profile": rec.profile, "k": 2, "c": rec.cat, "n": name, "v": hex::encode(&value), "t": tags}));
+            }
+            "reinsert_same" => {
+                // remove a record and insert it again with the same category, name, value and tags
+                if g.recs.is_empty() { continue; }
+                let rec = r.pick(&g.recs).clone();
+                let tags = Value::Array(rec.tags.iter().map(Tag::to_json).collect());
+                ops.push(json!({"op": "remove", "profile": rec.profile, "k": 2, "c": rec.cat, "n": rec.name}));
+                ops.push(json!({"op": "insert", "profile": rec.profile, "k": 2, "c": rec.cat, "n": rec.name, "v": hex::encode(&rec.value), "t": tags}));
+            }
+            "remove" => {
+                if g.recs.is_empty() { continue; }
+                let i = r.below(g.recs.len());
+                let rec = if r.chance(4, 5) { g.recs.remove(i) } else { g.recs[i].clone() };
+                let name = if r.chance(1, 10) { marker(r, "N") } else { rec.name.clone() };
+                ops.push(json!({"op": "remove", "profile": rec.profile, "k": 2, "c": rec.cat, "n": name}));
+            }
+            "remove_all" | "count" | "scan" => {
+                let profile = g.profile(r);
+                let cat = if r.chance(2, 3) { json!(r.pick(&g.cats).clone()) } else { Value::Null };
+                let k = match r.below(4) { 0 => Value::Null, 1 => json!(1), _ => json!(2) };
+                ops.push(json!({"op": pick, "profile": profile, "k": k, "c": cat, "f": g.filter(r)}));
+            }
+            "fetch" => {
+                if g.recs.is_empty() { continue; }
+                let rec = r.pick(&g.recs).clone();
+                ops.push(json!({"op": "fetch", "profile": rec.profile, "k": 2, "c": rec.cat, "n": rec.name}));
+            }
+            "insert_key" => {
+                let alg = *r.pick(KEY_ALGS);
+                let seed = r.bytes(32);
+                let (_, jwk, sec, thumbs) = match key_observables(alg, &seed) { Some(x) => x, None => continue };
+                let profile = g.profile(r);
+                let meta = if r.chance(2, 3) { json!(marker(r, "M")) } else { Value::Null };
+                ops.push(json!({"op": "insert_key", "profile": profile, "n": marker(r, "K"), "alg": alg, "seed": hex::encode(&seed), "meta": meta,
+                                "t": g.tags(r), "jwk": jwk, "sec": hex::encode(&sec), "thumbs": thumbs}));
+            }
+            "create_profile" => {
+                let name = if r.chance(1, 8) { r.pick(&g.profiles).clone() } else { marker(r, "P") };
+                if !g.profiles.contains(&name) { g.profiles.push(name.clone()); }
+                ops.push(json!({"op": "create_profile", "name": name}));
+            }
+            "remove_profile" => {
+                let cands: Vec<String> = g.profiles.iter().filter(|p| **p != g.default && **p != p0).cloned().collect();
+                let name = if cands.is_empty() || r.chance(1, 5) { marker(r, "Pnone") } else { r.pick(&cands).clone() };
+                g.profiles.retain(|p| *p != name);
+                g.recs.retain(|x| x.profile != name);
+                ops.push(json!({"op": "remove_profile", "name": name}));
+            }
+            "set_default" => {
+                let name = r.pick(&g.profiles).clone();
+                g.default = name.clone();
+                ops.push(json!({"op": "set_default", "name": name}));
+            }
+            "rekey" | "copy" => {
+                // every ordered pair of protection classes occurs; `none` on either side about a quarter of the time
+                let methods: &[&str] = if thorough { &["raw", "kdf:argon2i:13:int", "kdf:argon2i:13:mod", "none", "raw", "kdf:argon2i:13:int"] }
+                                       else { &["raw", "kdf:argon2i:13:int", "none", "raw"] };
+                let m = *r.pick(methods);
+                ops.push(json!({"op": pick, "method": m, "pass": fresh_pass(r, m)}));
+                if pick == "rekey" { cur_method = m.to_string(); }
+            }
+            "checkpoint" => ops.push(json!({"op": "checkpoint"})),
+            "reopen" => ops.push(json!({"op": "reopen"})),
+            _ => {}
+        }
+    }
+    let _ = cur_method;
+    json!({"kind": "c02", "id": id, "method": method, "pass": pass, "journal": journal, "profile": p0, "ops": ops})
+}
+
+/// generated cases for this property (each a JSON object with "kind": "c02")
+pub fn gen(r: &mut Rng, thorough: bool, count: Option<usize>) -> Vec<Value> {
+    let methods: &[&str] = if thorough { &["raw", "kdf:argon2i:13:int", "none", "kdf:argon2i:13:mod"] } else { &["raw", "kdf:argon2i:13:int", "none"] };
+    let n = count.unwrap_or(if thorough { 1000 } else { 60 });
+    (0..n).map(|i| {
+        let mut rr = r.fork();
+        // argon2i:mod costs ~1 s per derivation: one case in 20 of the thorough tier
+        let method = if thorough && i % 20 == 19 { methods[3] } else { methods[i % 3] };
+        let journal = if i % 4 == 3 { "delete" } else { "wal" };
+        gen_case(&mut rr, i as u64, method, journal, thorough)
+    }).collect()
+}
+
+// =============================================================================================
+// executor
+
+#[derive(Clone)]
+struct Secret { class: &'static str, label: String, bytes: Vec<u8>, store: usize /* usize::MAX = none */ }
+
+#[derive(Default, Clone)]
+struct Dump {
+    key: String,
+    profiles: Vec<(i64, String, Vec<u8>)>,
+    items: Vec<(i64, i64, i64, Vec<u8>, Vec<u8>, Vec<u8>)>,
+    tags: Vec<(i64, i64, Vec<u8>, Vec<u8>, i64)>,
+}
+
+struct StoreSt {
+    path: String,
+    backend: Option<AnyBackend>,
+    store: Option<Store>,      // the copy target is held through the `Store` that `copy_to` returned
+    method: String,
+    pass: Option<String>,
+    key: Option<Vec<u8>>,      // the 32-byte store key as this harness computes it
+    was_none: bool,            // the file has at some time held unwrapped profile keys
+    prev_values: HashMap<i64, Vec<u8>>,
+}
+
+struct Run {
+    stores: Vec<StoreSt>, // 0 = main, 1 = copy target (if any)
+    secrets: Vec<Secret>,
+    secret_set: HashSet<Vec<u8>>,
+    tag_values: HashSet<Vec<u8>>,    // every tag value of the case (to classify a stored tag value as "in the clear")
+    nonce_hist: HashMap<Vec<u8>, (usize, i64)>,
+    value_hist: HashMap<Vec<u8>, Vec<Vec<u8>>>, // plaintext value -> stored byte strings seen for it
+    oracle: Vec<Value>,
+    sigs: BTreeSet<String>,
+    feat: BTreeMap<String, u64>,
+    journal: String,
+}
+
+fn bump(f: &mut BTreeMap<String, u64>, k: &str) { *f.entry(k.to_string()).or_insert(0) += 1; }
+fn bump_by(f: &mut BTreeMap<String, u64>, k: &str, n: u64) { *f.entry(k.to_string()).or_insert(0) += n; }
+
+fn passkey(p: &Option<String>) -> PassKey<'static> {
+    match p { Some(s) => PassKey::from(s.clone()), None => PassKey::empty() }
+}
+
+fn uri_of(path: &str, journal: &str) -> String {
+    if journal == "delete" { format!("sqlite://{}?journal_mode=delete", path) } else { format!("sqlite://{}", path) }
+}
+
+fn remove_files(path: &str) {
+    for suffix in ["", "-wal", "-shm", "-journal"] { std::fs::remove_file(format!("{}{}", path, suffix)).ok(); }
+}
+
+fn res_of(r: Result<(), Error>) -> Value {
+    match r { Ok(()) => json!("ok"), Err(e) => json!({"err": err_name(e.kind())}) }
+}
+
+/// the 32-byte store key, recomputed here from the pass key and the reference stored in `config.key`
+fn store_key_bytes(key_ref: &str, pass: &Option<String>) -> Option<Vec<u8>> {
+    if key_ref == "none" { return None; }
+    if key_ref == "raw" { return pass.as_ref().map(|p| b58_decode(p)); }
+    let salt_hex = key_ref.split("?salt=").nth(1)?;
+    let salt = hex::decode(salt_hex).ok()?;
+    let params = if key_ref.contains(":int") { PARAMS_INTERACTIVE } else { PARAMS_MODERATE };
+    let mut out = vec![0u8; 32];
+    Argon2::new(pass.as_ref()?.as_bytes(), &salt, params).ok()?.derive_key_bytes(&mut out).ok()?;
+    Some(out)
+}
+
+fn unseal(key: &[u8], merged: &[u8]) -> Option<Vec<u8>> {
+    if merged.len() < 12 + 16 { return None; }
+    let k = Chacha20Key::<C20P>::from_secret_bytes(key).ok()?;
+    let mut buf = SecretBytes::from_slice(&merged[12..]);
+    k.decrypt_in_place(&mut buf, &merged[..12], &[]).ok()?;
+    Some(buf.as_ref().to_vec())
+}
+
+/// the byte-string members of a CBOR map with text keys (what serde_cbor writes for `ProfileKeyImpl`)
+fn cbor_byte_members(b: &[u8]) -> Option<Vec<(String, Vec<u8>)>> {
+    fn head(b: &[u8], p: &mut usize) -> Option<(u8, usize)> {
+        let x = *b.get(*p)?; *p += 1;
+        let major = x >> 5; let info = (x & 31) as usize;
+        let n = match info {
+            0..=23 => info,
+            24 => { let v = *b.get(*p)? as usize; *p += 1; v }
+            25 => { let v = ((*b.get(*p)? as usize) << 8) | *b.get(*p + 1)? as usize; *p += 2; v }
+            _ => return None,
+        };
+        Some((major, n))
+    }
+    let mut p = 0;
+    let (major, n) = head(b, &mut p)?;
+    if major != 5 { return None; }
+    let mut out = vec![];
+    for _ in 0..n {
+        let (mk, lk) = head(b, &mut p)?;
+        if mk != 3 { return None; }
+        let key = String::from_utf8(b.get(p..p + lk)?.to_vec()).ok()?; p += lk;
+        let (mv, lv) = head(b, &mut p)?;
+        if mv != 2 && mv != 3 { return None; }
+        let val = b.get(p..p + lv)?.to_vec(); p += lv;
+        if mv == 2 { out.push((key, val)); }
+    }
+    if p != b.len() { return None; }
+    Some(out)
+}
+
+fn read_dump(path: &str) -> Result<Dump, String> {
+    let raw = RawDb::open(path)?;
+    let mut d = Dump::default();
+    for row in raw.query("SELECT value FROM config WHERE name='key'", &[])? { d.key = row[0].as_text(); }
+    for row in raw.query("SELECT id, name, profile_key FROM profiles ORDER BY id", &[])? { d.profiles.push((row[0].as_int(), row[1].as_text(), row[2].as_blob())); }
+    for row in raw.query("SELECT id, profile_id, kind, category, name, value FROM items ORDER BY id", &[])? {
+        d.items.push((row[0].as_int(), row[1].as_int(), row[2].as_int(), row[3].as_blob(), row[4].as_blob(), row[5].as_blob()));
+    }
+    for row in raw.query("SELECT id, item_id, name, value, plaintext FROM items_tags ORDER BY id", &[])? {
+        d.tags.push((row[0].as_int(), row[1].as_int(), row[2].as_blob(), row[3].as_blob(), row[4].as_int()));
+    }
+    Ok(d)
+}
+
+fn find_all(hay: &[u8], idx: &HashMap<[u8; 4], Vec<usize>>, secrets: &[Secret]) -> Vec<usize> {
+    let mut hits = BTreeSet::new();
+    if hay.len() < 4 { return vec![]; }
+    for p in 0..hay.len() - 3 {
+        let k = [hay[p], hay[p + 1], hay[p + 2], hay[p + 3]];
+        if let Some(list) = idx.get(&k) {
+            for &s in list { if hay[p..].starts_with(&secrets[s].bytes) { hits.insert(s); } }
+        }
+    }
+    hits.into_iter().collect()
+}
+
+impl Run {
+    fn fail(&mut self, sig: String, detail: Value) {
+        if self.sigs.insert(sig.clone()) && self.oracle.len() < 12 {
+            let mut o = json!({"sig": sig});
+            if let (Some(m), Some(d)) = (o.as_object_mut(), detail.as_object()) { for (k, v) in d { m.insert(k.clone(), v.clone()); } }
+            self.oracle.push(o);
+        }
+    }
+
+    fn add_secret(&mut self, class: &'static str, label: &str, bytes: &[u8], store: usize) {
+        if bytes.len() < 12 { return; }
+        // long byte strings: three 24-byte windows (start, middle, end)
+        let parts: Vec<Vec<u8>> = if bytes.len() > 96 {
+            let m = bytes.len() / 2;
+            vec![bytes[..24].to_vec(), bytes[m..m + 24].to_vec(), bytes[bytes.len() - 24..].to_vec()]
+        } else { vec![bytes.to_vec()] };
+        for p in parts {
+            if self.secret_set.insert(p.clone()) { self.secrets.push(Secret { class, label: label.to_string(), bytes: p, store }); }
+        }
+    }
+
+    fn add_text_secret(&mut self, class: &'static str, s: &str) { self.add_secret(class, s, s.as_bytes(), usize::MAX); }
+
+    /// secrets named by the case itself
+    fn collect_case_secrets(&mut self, case: &Value) {
+        let pass = case["pass"].as_str().map(|s| s.to_string());
+        self.add_pass(&case["method"].as_str().unwrap_or("").to_string(), &pass);
+        for op in case["ops"].as_array().cloned().unwrap_or_default() {
+            let name = op["op"].as_str().unwrap_or("");
+            match name {
+                "insert" | "replace" | "remove" | "fetch" | "remove_all" | "count" | "scan" => {
+                    if let Some(c) = op["c"].as_str() { self.add_text_secret("category", c); }
+                    if let Some(n) = op["n"].as_str() { self.add_text_secret("name", n); }
+                    if let Some(v) = op["v"].as_str() { let b = hex::decode(v).unwrap_or_default(); self.add_secret("value", &format!("value[{}]", b.len()), &b, usize::MAX); }
+                    self.collect_tags(&op["t"], "tag-name", "enc-tag-value");
+                    self.collect_filter(&op["f"]);
+                }
+                "insert_key" => {
+                    if let Some(n) = op["n"].as_str() { self.add_text_secret("key-name", n); }
+                    if let Some(m) = op["meta"].as_str() { self.add_text_secret("key-metadata", m); }
+                    self.collect_tags(&op["t"], "tag-name", "enc-tag-value");
+                    let sec = hex::decode(op["sec"].as_str().unwrap_or("")).unwrap_or_default();
+                    self.add_secret("private-key", "secret bytes", &sec, usize::MAX);
+                    if let Ok(j) = serde_json::from_str::<Value>(op["jwk"].as_str().unwrap_or("")) {
+                        for m in ["d", "k"] { if let Some(d) = j[m].as_str() { self.add_secret("private-key", &format!("jwk.{}", m), d.as_bytes(), usize::MAX); } }
+                    }
+                    for t in op["thumbs"].as_array().cloned().unwrap_or_default() { if let Some(t) = t.as_str() { self.add_secret("enc-tag-value", "thumbprint", t.as_bytes(), usize::MAX); } }
+                }
+                "rekey" | "copy" => {
+                    let p = op["pass"].as_str().map(|s| s.to_string());
+                    self.add_pass(op["method"].as_str().unwrap_or(""), &p);
+                }
+                _ => {}
+            }
+        }
+    }
+
+    fn add_pass(&mut self, method: &str, pass: &Option<String>) {
+        if let Some(p) = pass {
+            if method == "raw" {
+                self.add_secret("raw-key-base58", "base58 raw key", p.as_bytes(), usize::MAX);
+                self.add_secret("raw-key-bytes", "raw key bytes", &b58_decode(p), usize::MAX);
+            } else {
+                self.add_secret("pass-key", "pass key", p.as_bytes(), usize::MAX);
+            }
+        }
+    }
+
+    fn collect_tags(&mut self, t: &Value, name_class: &'static str, value_class: &'static str) {
+        for tag in tags_from_json(t).unwrap_or_default() {
+            self.add_text_secret(name_class, &tag.name);
+            self.tag_values.insert(tag.value.as_bytes().to_vec());
+            if !tag.plain { self.add_text_secret(value_class, &tag.value); }
+        }
+    }
+
+    fn collect_filter(&mut self, f: &Value) {
+        let obj = match f.as_object() { Some(o) => o, None => return };
+        for (k, x) in obj {
+            match k.as_str() {
+                "and" | "or" => for c in x.as_array().cloned().unwrap_or_default() { self.collect_filter(&c); },
+                "not" => self.collect_filter(x),
+                "exist" => for n in x.as_array().cloned().unwrap_or_default() { self.filter_name(n.as_str().unwrap_or("")); },
+                "in" => {
+                    let plain = self.filter_name(x[0].as_str().unwrap_or(""));
+                    for v in x[1].as_array().cloned().unwrap_or_default() { if !plain { self.add_text_secret("enc-tag-value", v.as_str().unwrap_or("")); } }
+                }
+                _ => {
+                    let plain = self.filter_name(x[0].as_str().unwrap_or(""));
+                    if !plain { self.add_text_secret("enc-tag-value", x[1].as_str().unwrap_or("")); }
+                }
+            }
+        }
+    }
+
+    /// registers the tag name of a filter as a secret; returns whether it denotes a plaintext tag
+    fn filter_name(&mut self, n: &str) -> bool {
+        let (plain, bare) = match n.strip_prefix('~') { Some(b) => (true, b), None => (false, n) };
+        self.add_text_secret("tag-name", bare);
+        plain
+    }
+
+    /// after provision / rekey / copy: recompute the store key from config.key and the pass key
+    fn refresh_key(&mut self, si: usize) {
+        let path = self.stores[si].path.clone();
+        let key_ref = match read_dump(&path) { Ok(d) => d.key, Err(e) => { self.fail("harness:raw-read-failed".into(), json!({"e": e})); return; } };
+        let key = store_key_bytes(&key_ref, &self.stores[si].pass);
+        if let Some(k) = &key { let k = k.clone(); self.add_secret("store-key", "store key bytes", &k, usize::MAX); }
+        if key.is_none() { self.stores[si].was_none = true; }
+        self.stores[si].key = key;
+    }
+
+    /// read every file of every store and search it for every secret
+    fn scan_files(&mut self, when: &str, step: i64, must_find: &[(&'static str, Vec<u8>)], must_store: usize) {
+        let mut idx: HashMap<[u8; 4], Vec<usize>> = HashMap::new();
+        for (i, s) in self.secrets.iter().enumerate() { idx.entry([s.bytes[0], s.bytes[1], s.bytes[2], s.bytes[3]]).or_default().push(i); }
+        let mut found_public: Vec<bool> = vec![false; must_find.len()];
+        let mut subkey_seen_under_none = vec![false; self.stores.len()];
+        for si in 0..self.stores.len() {
+            let sname = if si == 0 { "main" } else { "copy" };
+            let (path, protected, was_none) = (self.stores[si].path.clone(), self.stores[si].key.is_some(), self.stores[si].was_none);
+            for (suffix, fkind) in [("", "db"), ("-wal", "db-wal"), ("-shm", "db-shm"), ("-journal", "db-journal")] {
+                let bytes = match std::fs::read(format!("{}{}", path, suffix)) { Ok(b) => b, Err(_) => continue };
+                bump(&mut self.feat, &format!("files_read:{}", fkind));
+                bump_by(&mut self.feat, "bytes_scanned", bytes.len() as u64);
+                for h in find_all(&bytes, &idx, &self.secrets) {
+                    let s = self.secrets[h].clone();
+                    if s.class == "profile-subkey" && s.store == si && !protected {
+                        // method `none`: the profile key is stored unwrapped, by design
+                        subkey_seen_under_none[si] = true;
+                        continue;
+                    }
+                    let sig = if s.class == "profile-subkey" && s.store == si && was_none {
+                        format!("residue:profile-subkey:{}:{}:after-rekey-from-none", fkind, sname)
+                    } else {
+                        format!("leak:{}:{}:{}:{}", s.class, fkind, sname, when)
+                    };
+                    bump(&mut self.feat, "leaks");
+                    let (m, j) = (self.stores[si].method.clone(), self.journal.clone());
+                    self.fail(sig, json!({"step": step, "what": s.label, "method": m, "journal": j}));
+                }
+                if si == must_store && fkind != "db-shm" {
+                    for (i, (_, b)) in must_find.iter().enumerate() {
+                        if !found_public[i] && b.len() >= 4 && bytes.windows(b.len()).any(|w| w == &b[..]) { found_public[i] = true; }
+                    }
+                }
+            }
+            if !protected && (self.stores[si].backend.is_some() || self.stores[si].store.is_some()) {
+                if subkey_seen_under_none[si] { bump(&mut self.feat, "subkeys_clear_under_none"); }
+                else if self.secrets.iter().any(|s| s.class == "profile-subkey" && s.store == si) {
+                    self.fail(format!("scanner:unwrapped-profile-key-not-found:{}", sname), json!({"step": step}));
+                }
+            }
+        }
+        for (i, (class, b)) in must_find.iter().enumerate() {
+            if found_public[i] { bump(&mut self.feat, &format!("public_found:{}", class)); }
+            else { self.fail(format!("scanner:{}-not-found:{}", class, when), json!({"step": step, "what": String::from_utf8_lossy(b)})); }
+        }
+    }
+
+    /// out-of-band rows: sub-keys, clear columns, nonces; returns the canonical dump
+    fn inspect(&mut self, si: usize, when: &str, step: i64, written: Option<(&[u8], bool)>) -> Value {
+        let path = self.stores[si].path.clone();
+        let sname = if si == 0 { "main" } else { "copy" };
+        let d = match read_dump(&path) { Ok(d) => d, Err(e) => { self.fail("harness:raw-read-failed".into(), json!({"e": e, "step": step})); return Value::Null; } };
+        // profile keys
+        let key = self.stores[si].key.clone();
+        for (pid, name, pk) in &d.profiles {
+            let direct = cbor_byte_members(pk);
+            let plain = match (&key, direct) {
+                (Some(_), Some(_)) => { self.fail(format!("profile-key:stored-unwrapped:{}:{}", sname, when), json!({"step": step, "profile": name})); cbor_byte_members(pk) }
+                (Some(k), None) => match unseal(k, pk) {
+                    Some(p) => cbor_byte_members(&p),
+                    None => { self.fail(format!("profile-key:not-under-store-key:{}:{}", sname, when), json!({"step": step, "profile": name, "pid": pid})); None }
+                },
+                (None, x) => x,
+            };
+            match plain {
+                Some(members) => {
+                    let keys: Vec<_> = members.into_iter().filter(|(_, v)| v.len() == 32).collect();
+                    if keys.len() != 6 { self.fail(format!("profile-key:unexpected-shape:{}", sname), json!({"step": step, "n": keys.len()})); }
+                    for (k, v) in keys { self.add_secret("profile-subkey", &format!("{}.{}", name, k), &v, si); }
+                }
+                None => if key.is_none() { self.fail(format!("profile-key:unreadable:{}", sname), json!({"step": step})); },
+            }
+        }
+        // columns
+        let mut clear_secret = 0u64;
+        let mut check = |this: &mut Run, col: &str, b: &[u8]| {
+            if this.secret_set.contains(b) || this.secrets.iter().any(|s| s.bytes.len() <= b.len() && b.windows(s.bytes.len()).any(|w| w == &s.bytes[..])) {
+                clear_secret += 1;
+                this.fail(format!("clear-column:{}:{}:{}", col, sname, when), json!({"step": step}));
+            }
+        };
+        let pname: HashMap<i64, String> = d.profiles.iter().map(|(id, n, _)| (*id, n.clone())).collect();
+        let item_profile: HashMap<i64, String> = d.items.iter().map(|it| (it.0, pname.get(&it.1).cloned().unwrap_or_default())).collect();
+        for it in &d.items { check(self, "items.category", &it.3); check(self, "items.name", &it.4); check(self, "items.value", &it.5); }
+        for t in &d.tags { check(self, "items_tags.name", &t.2); if t.4 == 0 { check(self, "items_tags.value", &t.3); } }
+        // nonces: every new or changed stored value carries a nonce never seen before
+        let mut events: Vec<(i64, Vec<u8>)> = vec![];
+        let mut now_values = HashMap::new();
+        for it in &d.items {
+            now_values.insert(it.0, it.5.clone());
+            if self.stores[si].prev_values.get(&it.0) != Some(&it.5) { events.push((it.0, it.5.clone())); }
+        }
+        self.stores[si].prev_values = now_values;
+        for (id, v) in &events {
+            bump(&mut self.feat, "value_writes_observed");
+            if v.len() < 28 { self.fail(format!("stored-value:too-short:{}:{}", sname, when), json!({"step": step, "len": v.len()})); continue; }
+            let nonce = v[..12].to_vec();
+            if let Some(prev) = self.nonce_hist.get(&nonce) {
+                let prev = *prev;
+                self.fail(format!("nonce-repeat:{}:{}", sname, when), json!({"step": step, "row": id, "first_seen": [prev.0, prev.1]}));
+            }
+            self.nonce_hist.insert(nonce, (si, *id));
+        }
+        if let Some((plain, expect_write)) = written {
+            if expect_write {
+                if events.len() != 1 {
+                    self.fail(format!("write:{}:stored-bytes-changed-in-{}-rows", when, events.len()), json!({"step": step}));
+                }
+                for (_, v) in &events {
+                    let hist = self.value_hist.entry(plain.to_vec()).or_default();
+                    if !hist.is_empty() { bump(&mut self.feat, "same_value_rewrites"); }
+                    if hist.contains(v) { self.sigs.insert(format!("same-value-same-bytes:{}", when)); self.oracle.push(json!({"sig": format!("same-value-same-bytes:{}", when), "step": step})); }
+                    hist.push(v.clone());
+                }
+            }
+        }
+        // canonical dump
+        let key_part = d.key.split('?').next().unwrap_or("").to_string();
+        let mut profiles: Vec<Value> = d.profiles.iter().map(|(_, n, k)| json!([n, k.len()])).collect();
+        profiles.sort_by_key(|v| v.to_string());
+        let mut items: Vec<(String, i64, usize, usize, usize)> = d.items.iter().map(|it| (pname.get(&it.1).cloned().unwrap_or_default(), it.2, it.3.len(), it.4.len(), it.5.len())).collect();
+        items.sort();
+        let mut tags: Vec<(String, usize, usize, i64, bool)> = d.tags.iter().map(|t| (item_profile.get(&t.1).cloned().unwrap_or_default(), t.2.len(), t.3.len(), t.4, self.tag_values.contains(&t.3))).collect();
+        tags.sort();
+        for t in &d.tags { if (t.4 != 0) != self.tag_values.contains(&t.3) {
+            let sig = if t.4 != 0 { format!("plaintext-tag:value-not-as-given:{}", when) } else { format!("clear-column:items_tags.value:{}:{}", sname, when) };
+            self.fail(sig, json!({"step": step}));
+        } }
+        json!({"key": key_part, "profiles": profiles,
+               "items": items.iter().map(|i| json!([i.0, i.1, i.2, i.3, i.4])).collect::<Vec<_>>(),
+               "tags": tags.iter().map(|t| json!([t.0, t.1, t.2, t.3, t.4])).collect::<Vec<_>>(),
+               "clear_secret": clear_secret})
+    }
+
+    fn dumps(&mut self, when: &str, step: i64, written: Option<(&[u8], bool)>) -> (Value, Value) {
+        let main = self.inspect(0, when, step, written);
+        let copy = if self.stores.len() > 1 { self.inspect(1, when, step, None) } else { Value::Null };
+        (main, copy)
+    }
+}
+
+fn parse_method(m: &str) -> StoreKeyMethod { StoreKeyMethod::parse_uri(m).expect("method") }
+
+fn provision_retry(uri: &str, method: &str, pass: &Option<String>, profile: Option<String>) -> Result<AnyBackend, Error> {
+    let mut last = None;
+    for attempt in 0..20 {
+        match block_on(async { uri.provision_backend(parse_method(method), passkey(pass), profile.clone(), true).await }) {
+            Ok(b) => return Ok(b),
+            Err(e) => {
+                if e.kind() != askar_storage::ErrorKind::Backend && e.kind() != askar_storage::ErrorKind::Busy { return Err(e); }
+                last = Some(e);
+                std::thread::sleep(std::time::Duration::from_millis(20 * (attempt + 1)));
+            }
+        }
+    }
+    Err(last.unwrap())
 }
 
 /// run one case against the real code; returns {"out": …, "oracle": […], "feat": {…}}
-pub fn exec(_case: &Value, _tag: &str) -> Value {
-    json!({"out": {"err": "not implemented"}})
+pub fn exec(case: &Value, tag: &str) -> Value {
+    let method = case["method"].as_str().unwrap_or("raw").to_string();
+    let pass = case["pass"].as_str().map(|s| s.to_string());
+    let journal = case["journal"].as_str().unwrap_or("wal").to_string();
+    let profile0 = case["profile"].as_str().unwrap_or("default").to_string();
+    let ops = case["ops"].as_array().cloned().unwrap_or_default();
+    let path = format!("{}/c02-{}.db", scratch_dir(), tag);
+    let copy_path = format!("{}/c02-{}-copy.db", scratch_dir(), tag);
+    remove_files(&path);
+    remove_files(&copy_path);
+
+    let mut run = Run { stores: vec![], secrets: vec![], secret_set: HashSet::new(), tag_values: HashSet::new(), nonce_hist: HashMap::new(),
+                        value_hist: HashMap::new(), oracle: vec![], sigs: BTreeSet::new(), feat: BTreeMap::new(), journal: journal.clone() };
+    run.collect_case_secrets(case);
+    bump(&mut run.feat, &format!("method:{}", method));
+    bump(&mut run.feat, &format!("journal:{}", journal));
+
+    let uri = uri_of(&path, &journal);
+    let backend = match provision_retry(&uri, &method, &pass, Some(profile0.clone())) {
+        Ok(b) => b,
+        Err(e) => return json!({"out": {"provision": {"err": err_name(e.kind())}}, "oracle": [{"sig": format!("provision:ok->err:{}", err_name(e.kind())), "msg": format!("{:?}", e)}], "feat": run.feat}),
+    };
+    run.stores.push(StoreSt { path: path.clone(), backend: Some(backend), store: None, method: method.clone(), pass: pass.clone(), key: None, was_none: false, prev_values: HashMap::new() });
+    run.refresh_key(0);
+    // step -1: the freshly provisioned store
+    let mut steps: Vec<Value> = vec![];
+    {
+        let (m, c) = run.dumps("provision", -1, None);
+        run.scan_files("provision", -1, &[("profile-name", profile0.as_bytes().to_vec())], 0);
+        steps.push(json!({"res": "ok", "main": m, "copy": c}));
+    }
+
+    for (i, op) in ops.iter().enumerate() {
+        let name = op["op"].as_str().unwrap_or("").to_string();
+        bump(&mut run.feat, &format!("op:{}", name));
+        let profile = op["profile"].as_str().map(|s| s.to_string());
+        let kind = op["k"].as_i64();
+        let cat = op["c"].as_str().map(|s| s.to_string());
+        let nm = op["n"].as_str().unwrap_or("").to_string();
+        let value = hex::decode(op["v"].as_str().unwrap_or("")).unwrap_or_default();
+        let tags = tags_from_json(&op["t"]);
+        let etags = tags.as_ref().map(|ts| ts.iter().map(Tag::to_entry_tag).collect::<Vec<_>>());
+        let mut must: Vec<(&'static str, Vec<u8>)> = vec![];
+        let mut written: Option<(Vec<u8>, bool)> = None;
+        let res: Value = match name.as_str() {
+            "insert" | "replace" | "remove" => {
+                let backend = run.stores[0].backend.as_ref().unwrap();
+                let r = block_on(async {
+                    let mut s = backend.session(profile.clone(), false)?;
+                    let opk = match name.as_str() { "insert" => EntryOperation::Insert, "replace" => EntryOperation::Replace, _ => EntryOperation::Remove };
+                    let r = s.update(kind_of(kind.unwrap_or(2)), opk, cat.as_deref().unwrap_or(""), &nm,
+                                     if name == "remove" { None } else { Some(&value) }, etags.as_deref(), None).await;
+                    s.close(true).await.ok();
+                    drop(s);
+                    r
+                });
+                if name != "remove" {
+                    written = Some((value.clone(), r.is_ok()));
+                    if r.is_ok() { for t in tags.iter().flatten() { if t.plain && t.value.len() >= 12 { must.push(("plain-tag-value", t.value.as_bytes().to_vec())); } } }
+                }
+                if let Err(e) = &r { bump(&mut run.feat, &format!("err:{}", err_name(e.kind()))); }
+                res_of(r)
+            }
+            "remove_all" | "count" | "fetch" | "scan" => {
+                let backend = run.stores[0].backend.as_ref().unwrap();
+                let filter = filter_from_json(&op["f"]);
+                if filter.is_some() { bump(&mut run.feat, "filtered_calls"); }
+                block_on(async {
+                    let k = kind.map(kind_of);
+                    if name == "scan" {
+                        return match backend.scan(profile.clone(), k, cat.clone(), filter, None, None, None, false).await {
+                            Err(e) => json!({"err": err_name(e.kind())}),
+                            Ok(mut scan) => {
+                                let mut n = 0;
+                                loop {
+                                    match scan.fetch_next().await { Ok(Some(rows)) => n += rows.len(), Ok(None) => break, Err(e) => return json!({"err": err_name(e.kind())}) }
+                                }
+                                json!({"n": n})
+                            }
+                        };
+                    }
+                    let mut s = match backend.session(profile.clone(), false) { Ok(s) => s, Err(e) => return json!({"err": err_name(e.kind())}) };
+                    let r = match name.as_str() {
+                        "remove_all" => s.remove_all(k, cat.as_deref(), filter).await.map(|n| json!({"n": n})),
+                        "count" => s.count(k, cat.as_deref(), filter).await.map(|n| json!({"n": n})),
+                        _ => s.fetch(kind_of(kind.unwrap_or(2)), cat.as_deref().unwrap_or(""), &nm, false).await.map(|e| json!({"found": e.is_some()})),
+                    };
+                    s.close(true).await.ok();
+                    drop(s);
+                    r.unwrap_or_else(|e| json!({"err": err_name(e.kind())}))
+                })
+            }
+            "insert_key" => {
+                let seed = hex::decode(op["seed"].as_str().unwrap_or("")).unwrap_or_default();
+                match key_observables(op["alg"].as_str().unwrap_or(""), &seed) {
+                    None => json!({"err": "key-recipe"}),
+                    Some((key, jwk, sec, thumbs)) => {
+                        if json!(jwk) != op["jwk"] || json!(hex::encode(&sec)) != op["sec"] || json!(thumbs) != op["thumbs"] {
+                            run.fail("key-table:not-reproducible".into(), json!({"alg": op["alg"]}));
+                        }
+                        bump(&mut run.feat, &format!("alg:{}", op["alg"].as_str().unwrap_or("?")));
+                        let backend = run.stores[0].backend.as_ref().unwrap().clone();
+                        let r = block_on(async {
+                            let store = Store::from(backend);
+                            let r = match store.session(profile.clone()).await {
+                                Err(e) => Err(e),
+                                Ok(mut s) => {
+                                    let r = s.insert_key(&nm, &key, op["meta"].as_str(), None, etags.as_deref(), None).await;
+                                    drop(s);
+                                    r
+                                }
+                            };
+                            drop(store);
+                            r
+                        });
+                        match r {
+                            Ok(()) => {
+                                bump(&mut run.feat, "kms_inserted");
+                                for t in tags.iter().flatten() { if t.plain && t.value.len() >= 12 { must.push(("plain-tag-value", t.value.as_bytes().to_vec())); } }
+                                json!("ok")
+                            }
+                            Err(e) => { let k = format!("{:?}", e.kind()); bump(&mut run.feat, &format!("err:{}", k)); json!({"err": k}) }
+                        }
+                    }
+                }
+            }
+            "create_profile" => {
+                let n = op["name"].as_str().unwrap_or("").to_string();
+                let backend = run.stores[0].backend.as_ref().unwrap();
+                match block_on(async { backend.create_profile(Some(n.clone())).await }) {
+                    Ok(_) => { must.push(("profile-name", n.as_bytes().to_vec())); json!("ok") }
+                    Err(e) => json!({"err": err_name(e.kind())}),
+                }
+            }
+            "remove_profile" => {
+                let n = op["name"].as_str().unwrap_or("").to_string();
+                let backend = run.stores[0].backend.as_ref().unwrap();
+                match block_on(async { backend.remove_profile(n).await }) { Ok(b) => json!({"removed": b}), Err(e) => json!({"err": err_name(e.kind())}) }
+            }
+            "set_default" => {
+                let n = op["name"].as_str().unwrap_or("").to_string();
+                let backend = run.stores[0].backend.as_ref().unwrap();
+                res_of(block_on(async { backend.set_default_profile(n).await }))
+            }
+            "rekey" => {
+                let m = op["method"].as_str().unwrap_or("raw").to_string();
+                let p = op["pass"].as_str().map(|s| s.to_string());
+                let from = run.stores[0].method.clone();
+                let r = { let bk = run.stores[0].backend.as_mut().unwrap(); block_on(async { bk.rekey(parse_method(&m), passkey(&p)).await }) };
+                if r.is_ok() {
+                    bump(&mut run.feat, &format!("rekey:{}->{}", class_of(&from), class_of(&m)));
+                    run.stores[0].method = m; run.stores[0].pass = p;
+                    run.refresh_key(0);
+                }
+                res_of(r)
+            }
+            "copy" => {
+                let m = op["method"].as_str().unwrap_or("raw").to_string();
+                let p = op["pass"].as_str().map(|s| s.to_string());
+                // close the previous target
+                if run.stores.len() > 1 {
+                    close_store(&mut run.stores[1]);
+                    run.stores.truncate(1);
+                }
+                remove_files(&copy_path);
+                let backend = run.stores[0].backend.as_ref().unwrap().clone();
+                let target_uri = uri_of(&copy_path, &journal);
+                let r = block_on(async {
+                    let store = Store::from(backend);
+                    let r = store.copy_to(&target_uri, parse_method(&m), passkey(&p), true).await;
+                    drop(store);
+                    r
+                });
+                match r {
+                    Ok(target) => {
+                        bump(&mut run.feat, &format!("copy:{}->{}", class_of(&run.stores[0].method), class_of(&m)));
+                        run.stores.push(StoreSt { path: copy_path.clone(), backend: None, store: Some(target), method: m, pass: p, key: None, was_none: false, prev_values: HashMap::new() });
+                        run.refresh_key(1);
+                        json!("ok")
+                    }
+                    Err(e) => { let k = format!("{:?}", e.kind()); run.fail(format!("copy:ok->err:{}", k), json!({"e": format!("{:?}", e), "step": i})); json!({"err": k}) }
+                }
+            }
+            "checkpoint" => {
+                if journal == "wal" {
+                    match RawDb::open(&path).and_then(|raw| raw.query("PRAGMA wal_checkpoint(TRUNCATE)", &[])) { Ok(_) => bump(&mut run.feat, "checkpoints"), Err(_) => bump(&mut run.feat, "checkpoint_busy") }
+                }
+                json!("ok")
+            }
+            "reopen" => {
+                close_store(&mut run.stores[0]);
+                // the closed file
+                run.scan_files("closed", i as i64, &[], 0);
+                let (m, p) = (run.stores[0].method.clone(), run.stores[0].pass.clone());
+                match block_on(async { uri.as_str().open_backend(Some(parse_method(&m)), passkey(&p), None).await }) {
+                    Ok(b) => { run.stores[0].backend = Some(b); json!("ok") }
+                    Err(e) => { run.fail(format!("reopen:ok->err:{}", err_name(e.kind())), json!({"e": format!("{:?}", e), "step": i})); steps.push(json!({"res": {"err": err_name(e.kind())}})); break; }
+                }
+            }
+            _ => json!({"err": "unknown-op"}),
+        };
+        let w = written.as_ref().map(|(v, ok)| (&v[..], *ok));
+        let (m, c) = run.dumps(&name, i as i64, w);
+        run.scan_files(&name, i as i64, &must, 0);
+        steps.push(json!({"res": res, "main": m, "copy": c}));
+    }
+
+    // close everything, then look at the files once more (before any out-of-band connection touches them)
+    for s in run.stores.iter_mut() { close_store(s); }
+    run.scan_files("closed", ops.len() as i64, &[], 0);
+    let (m, c) = run.dumps("closed", ops.len() as i64, None);
+    run.scan_files("closed-after-raw-read", ops.len() as i64, &[], 0);
+    remove_files(&path);
+    remove_files(&copy_path);
+
+    bump_by(&mut run.feat, "secrets_searched", run.secrets.len() as u64);
+    bump_by(&mut run.feat, "nonces_seen", run.nonce_hist.len() as u64);
+    json!({"out": {"steps": steps, "closed": {"main": m, "copy": c}}, "oracle": run.oracle, "feat": run.feat})
 }
+
+fn close_store(s: &mut StoreSt) {
+    let (b, st) = (s.backend.take(), s.store.take());
+    block_on(async {
+        if let Some(b) = b { b.close().await.ok(); drop(b); }
+        if let Some(st) = st { st.close().await.ok(); }
+    });
+}
+
+fn class_of(m: &str) -> &'static str { if m == "raw" { "raw" } else if m == "none" { "none" } else { "kdf" } }
